@@ -125,6 +125,24 @@ theorem decode_no_panic (P : Prims) (hl : LenLaws P) (tPriv ct : Bytes) : Signal
     simp only
     split <;> simp
 
+/-- The roles are enforced on what the remote sends (`sessionTracker.execute`): of two distinct
+peers exactly one serves a `request_offer`; an offer is taken only by the answerer and an answer
+only by the offerer; any other non-empty SDP type is refused by both. So a remote that claims the
+role the local side holds is never served. -/
+theorem roles_enforced (a b : Bytes) (h : a ≠ b) (v : Nat) (s : Sdp) :
+    roleAccepts (isOfferer a b) (.requestOffer v) ≠ roleAccepts (isOfferer b a) (.requestOffer v) ∧
+    (s.sdpType = offerStr → roleAccepts (isOfferer a b) (.sdp s) = !isOfferer a b) ∧
+    (s.sdpType = answerStr → roleAccepts (isOfferer a b) (.sdp s) = isOfferer a b) ∧
+    (s.sdpType ≠ [] → s.sdpType ≠ offerStr → s.sdpType ≠ answerStr →
+      ∀ o, roleAccepts o (.sdp s) = false) := by
+  refine ⟨offerer_xor a b h, ?_, ?_, ?_⟩
+  · intro ht
+    cases ho : isOfferer a b <;> simp [roleAccepts, ht, offerStr, answerStr]
+  · intro ht
+    cases ho : isOfferer a b <;> simp [roleAccepts, ht, offerStr, answerStr]
+  · intro hne h1 h2 o
+    cases o <;> simp [roleAccepts, hne, h1, h2]
+
 /-! ### the session is bound to the signaled peer -/
 
 /-- Shape of the code the model of the session tracker stands for (regenerated on every run):
@@ -181,6 +199,177 @@ theorem link_only_from_signaled (accept : Bytes → Bytes → Bool)
   subst he
   exact ⟨htls _ _ ha, hp⟩
 
+/-! ### trackers are only created for a validated, foreign peer — and routed by the session's peer -/
+
+/-- Shape of the code around the tracker (regenerated on every run from handler.go, webrtc.go,
+session.go and a scan of the whole package):
+* `Resolve` decodes what `r.sess.Recv` yields with the transport's own private key and pushes the
+  result to the tracker that `addSessionTrackerRef(remotePeerIDStr)` yields, where
+  `remotePeerIDStr = r.sess.GetRemotePeerID().String()` — the remote peer of THAT signaling session;
+  the same string keys `incomingSessions`; nothing else is assigned to `tkr` and nothing else is sent;
+* `resolveHandleSignalPeer` refuses sessions of another signaling ID, sessions whose local peer is
+  not the transport's peer, and blocked peers, and hands the directive's own session to the resolver;
+* `addSessionTrackerRef` parses its argument (error ⇒ return), refuses the transport's own ID
+  (error), and is the only code that adds a key to `sessionTrackers` — with the canonical text of the
+  parsed ID; `newSessionTracker` is referred to only as that container's constructor, the tracker
+  literal occurs only there, and no code in the package assigns a `peerID` / `peerPub` / `offerer` /
+  `key` field; its callers are `DialPeer` (with `peerID.String()`) and `Resolve`; the verif hooks
+  reach trackers through `addSessionTrackerRef` (and the older `VerifSessionTrackerFacts` through
+  the bare constructor);
+* `executeXmitSignal` encrypts to `s.peerPub` and sends exactly that ciphertext on the signal's
+  session, which is the session `ExSignalPeer(…, s.w.peerID, s.peerID, …)` returned;
+* `execute` refuses a `request_offer` when `!s.offerer` and an SDP of the wrong type for its role;
+* `executeLink` listens iff `s.offerer`, and both constructors get `s.w.identity` and `s.peerID`. -/
+theorem handler_code_shape :
+    Gen.WebRtcSession.resolveRemotePeerID = "r.sess.GetRemotePeerID()" ∧
+    Gen.WebRtcSession.resolveRemotePeerIDStr = "remotePeerID.String()" ∧
+    Gen.WebRtcSession.resolveDataSource = "r.sess.Recv(ctx)" ∧
+    Gen.WebRtcSession.resolveDecodeArgs = ["data", "r.t.privKey"] ∧
+    Gen.WebRtcSession.resolveSigSource = "DecodeWebRtcSignal(data, r.t.privKey)" ∧
+    Gen.WebRtcSession.resolveAddRefCallee = "r.t.addSessionTrackerRef" ∧
+    Gen.WebRtcSession.resolveAddRefArgs = ["remotePeerIDStr"] ∧
+    Gen.WebRtcSession.resolveAddRefLhs = ["ref", "tkr", "_", "err"] ∧
+    Gen.WebRtcSession.resolveTkrDefs = ["r.t.addSessionTrackerRef(remotePeerIDStr)"] ∧
+    Gen.WebRtcSession.resolveSends = ["tkr.rxSignal <- sig"] ∧
+    Gen.WebRtcSession.resolveIncomingKeys = ["remotePeerIDStr"] ∧
+    Gen.WebRtcSession.handleGuards =
+      ["dir.HandleSignalingID() != c.t.conf.GetSignalingId()", "localPeerIDStr != actualLocalPeerIDStr",
+       "slices.Contains(c.t.conf.GetBlockPeers(), remotePeerIDStr)"] ∧
+    Gen.WebRtcSession.handleLocalPeerID = "dir.HandleSignalPeerSession().GetLocalPeerID()" ∧
+    Gen.WebRtcSession.handleLocalPeerIDStr = "localPeerID.String()" ∧
+    Gen.WebRtcSession.handleActualLocalPeerIDStr = "c.t.peerID.String()" ∧
+    Gen.WebRtcSession.handleRemotePeerIDStr = "dir.HandleSignalPeerSession().GetRemotePeerID().String()" ∧
+    Gen.WebRtcSession.handleResolverT = "c.t" ∧
+    Gen.WebRtcSession.handleResolverSess = "dir.HandleSignalPeerSession()" ∧
+    Gen.WebRtcSession.addRefParams = ["peerIDStr"] ∧
+    Gen.WebRtcSession.addRefBody =
+      ["peerID, peerPub, err := peer.ParsePeerIDWithPubKey(peerIDStr)", "if err != nil return-error",
+       "if w.peerID.MatchesPublicKey(peerPub) return-error",
+       "ref, tkr, existed := w.sessionTrackers.AddKeyRef(peerID.String())", "return ref, tkr, existed, nil"] ∧
+    Gen.WebRtcSession.trackerCreators =
+      ["NewWebRTC: tpt.newSessionTracker", "addSessionTrackerRef: w.sessionTrackers.AddKeyRef(peerID.String())"] ∧
+    Gen.WebRtcSession.addRefCallSites =
+      ["DialPeer: w.addSessionTrackerRef(peerIDStr)", "Resolve: r.t.addSessionTrackerRef(remotePeerIDStr)"] ∧
+    Gen.WebRtcSession.trackerCreatorsVerif =
+      ["VerifAddSessionTrackerRef: w.addSessionTrackerRef(peerIDStr)", "VerifSessionTrackerFacts: w.newSessionTracker"] ∧
+    Gen.WebRtcSession.trackerLiterals = ["newSessionTracker"] ∧
+    Gen.WebRtcSession.packageFieldAssignments = [] ∧
+    Gen.WebRtcSession.dialPeerIDStr = "peerID.String()" ∧
+    Gen.WebRtcSession.xmitEncodeArgs = ["sig.sig", "s.peerPub"] ∧
+    Gen.WebRtcSession.xmitMsgEnc = "EncodeWebRtcSignal(sig.sig, s.peerPub)" ∧
+    Gen.WebRtcSession.xmitSend = "sig.sess.Send(ctx, msgEnc)" ∧
+    Gen.WebRtcSession.exSignalPeerArgs =
+      ["ctx", "s.w.b", "s.w.conf.GetSignalingId()", "s.w.peerID", "s.peerID", "false"] ∧
+    Gen.WebRtcSession.exSignalPeerLhs = ["signal", "signalRel", "err"] ∧
+    Gen.WebRtcSession.outgoingSignalSess = ["signal"] ∧
+    Gen.WebRtcSession.requestOfferRefusedIf = ["!s.offerer"] ∧
+    Gen.WebRtcSession.sdpRoleEnforcement =
+      ["if s.offerer", "then reject if sdpType != \"answer\"", "else reject if sdpType != \"offer\""] ∧
+    Gen.WebRtcSession.sdpTypeDef = "currRxSdp.GetSdpType()" ∧
+    Gen.WebRtcSession.executeLinkShape =
+      ["if s.offerer", "then ListenSession(ctx, s.le, linkOpts, pc, s.w.identity, s.peerID)",
+       "else DialSession(ctx, s.le, linkOpts, pc, s.w.identity, remoteAddr, s.peerID)"] ∧
+    Gen.WebRtcSession.executeLinkRemoteAddr = "peer.NewNetAddr(s.peerID)" := by
+  repeat' constructor
+
+/-- Whatever string is handed to `addSessionTrackerRef`: if a tracker results, the string parsed
+to a peer ID `id` with an embedded public key `pk`; the tracker is keyed by the canonical text of
+`id`, hands exactly `id` to the Quic/TLS constructors and to the signaling session, and encrypts
+its signals to exactly `pk`; `id` is never empty (an empty expected peer would make the TLS layer
+accept anyone) and never the transport's own ID. -/
+theorem tracker_only_for_validated_peer (localID s : Bytes) (t : Tracker)
+    (h : addSessionTrackerRef localID s = some t) :
+    ∃ id pk, idB58Decode s = some id ∧ extractPublicKey id = some pk ∧ id ≠ [] ∧
+      matchesPublicKey localID pk = false ∧ t.key = idB58Encode id ∧
+      t.sinks = ⟨some id, some id, some pk⟩ := by
+  unfold addSessionTrackerRef at h
+  cases hd : idB58Decode s with
+  | none => simp [hd] at h
+  | some id =>
+    simp only [hd] at h
+    cases he : extractPublicKey id with
+    | none => simp [he] at h
+    | some pk =>
+      simp only [he] at h
+      cases hm : matchesPublicKey localID pk with
+      | true => simp [hm] at h
+      | false =>
+        simp only [hm, Bool.false_eq_true, ↓reduceIte, Option.some.injEq] at h
+        obtain ⟨hne, hc⟩ := Signal.idB58Decode_canonical s id hd
+        refine ⟨id, pk, rfl, he, hne, hm, ?_, ?_⟩
+        · rw [← h]; rfl
+        · rw [← h]
+          simp [Tracker.sinks, newSessionTracker, hc, he]
+
+/-- Malformed strings, IDs without an embedded key and the transport's own ID yield an error and
+no tracker. -/
+theorem malformed_or_self_rejected (localID s : Bytes) :
+    (idB58Decode s = none → addSessionTrackerRef localID s = none) ∧
+    (∀ id, idB58Decode s = some id → extractPublicKey id = none → addSessionTrackerRef localID s = none) ∧
+    (∀ pk, pk.length = 32 → addSessionTrackerRef (idFromPublicKey pk) (idB58Encode (idFromPublicKey pk)) = none) := by
+  refine ⟨fun h => by simp [addSessionTrackerRef, h], fun id h1 h2 => by simp [addSessionTrackerRef, h1, h2], ?_⟩
+  intro pk hpk
+  have hid : idB58Decode (idB58Encode (idFromPublicKey pk)) = some (idFromPublicKey pk) := by
+    have hfb := idFromBytes_idFromPublicKey pk hpk
+    obtain ⟨_, r, hr⟩ := idFromBytes_some _ _ hfb
+    unfold idB58Decode idB58Encode
+    rw [B58.decode_encode _ (decodeMultihash_ne_nil _ r hr)]
+    exact hfb
+  simp [addSessionTrackerRef, hid, Codec.extract_idFromPublicKey pk hpk, matchesPublicKey]
+
+/-- The tracker created for the signaled peer P (public key `pk`) — by `DialPeer(P)` or by a
+signal arriving on the signaling session whose remote peer is P — hands exactly P to the TLS
+constructors (`ListenSession` / `DialSession`) and to `ExSignalPeer`, and encrypts its signals to
+P's key. -/
+theorem tracker_for_signaled_peer (localID pk : Bytes) (h : pk.length = 32) (hself : idFromPublicKey pk ≠ localID) :
+    ∃ t, dialTracker localID (idFromPublicKey pk) = some t ∧
+      incomingTracker localID (idFromPublicKey pk) = some t ∧
+      t.key = idB58Encode (idFromPublicKey pk) ∧
+      t.sinks = ⟨some (idFromPublicKey pk), some (idFromPublicKey pk), some pk⟩ := by
+  have hid : idB58Decode (idB58Encode (idFromPublicKey pk)) = some (idFromPublicKey pk) := by
+    have hfb := idFromBytes_idFromPublicKey pk h
+    obtain ⟨_, r, hr⟩ := idFromBytes_some _ _ hfb
+    unfold idB58Decode idB58Encode
+    rw [B58.decode_encode _ (decodeMultihash_ne_nil _ r hr)]
+    exact hfb
+  have hex := Codec.extract_idFromPublicKey pk h
+  have hm : matchesPublicKey localID pk = false := by
+    simp [matchesPublicKey, hself]
+  refine ⟨newSessionTracker (idB58Encode localID) (idB58Encode (idFromPublicKey pk)), ?_, ?_, rfl, ?_⟩
+  · simp [dialTracker, addSessionTrackerRef, hid, hex, hm]
+  · simp [incomingTracker, addSessionTrackerRef, hid, hex, hm]
+  · simp [Tracker.sinks, newSessionTracker, hid, hex]
+
+/-- Signals of two different sessions never reach the same tracker: the tracker is a function of
+the session's remote peer, and trackers of different peers are keyed differently. -/
+theorem incoming_not_misrouted (localID r1 r2 : Bytes) (t1 t2 : Tracker) (hne : r1 ≠ r2)
+    (h1 : incomingTracker localID r1 = some t1) (h2 : incomingTracker localID r2 = some t2) :
+    t1.key ≠ t2.key ∧ t1.sinks.quicExpectedPeer = some r1 ∧ t2.sinks.quicExpectedPeer = some r2 := by
+  obtain ⟨id1, pk1, hd1, _, hn1, _, hk1, hs1⟩ := tracker_only_for_validated_peer localID _ t1 h1
+  obtain ⟨id2, pk2, hd2, _, hn2, _, hk2, hs2⟩ := tracker_only_for_validated_peer localID _ t2 h2
+  -- the canonical text of r decodes to r
+  have hr : ∀ r id, idB58Decode (idB58Encode r) = some id → id = r := by
+    intro r id h
+    unfold idB58Decode idB58Encode at h
+    by_cases hr0 : r = []
+    · subst hr0
+      have : B58.encode ([] : Bytes) = [] := (B58.encode_eq_nil []).mpr rfl
+      rw [this, B58.decode_nil] at h
+      cases h
+    · rw [B58.decode_encode r hr0] at h
+      exact (idFromBytes_some r id h).1
+  have e1 := hr r1 id1 hd1
+  have e2 := hr r2 id2 hd2
+  subst e1 e2
+  refine ⟨?_, by rw [hs1], by rw [hs2]⟩
+  rw [hk1, hk2]
+  intro he
+  unfold idB58Encode at he
+  have h1' := B58.decode_encode id1 hn1
+  rw [he, B58.decode_encode id2 hn2] at h1'
+  injection h1' with h1'
+  exact hne h1'.symm
+
 /-- Non-vacuity: a concrete well-formed SDP signal round-trips through the codec, and the toy
 primitives satisfy the laws the privacy theorems assume (see C12). -/
 example : unmarshal (marshal { body := .sdp { txSeqno := 3, sdpType := [111], sdp := [118, 61, 48] } }) =
@@ -189,5 +378,12 @@ example : unmarshal (marshal { body := .sdp { txSeqno := 3, sdpType := [111], sd
   refine ⟨rfl, rfl, ?_, ?_, ?_⟩ <;> simp
 
 example : LenLaws toyPrims ∧ CryptoLaws toyPrims := ⟨toy_len, toy_crypto⟩
+
+/-- `tracker_for_signaled_peer` is not vacuous (two different 32-byte keys), and the empty string /
+a non-base58 string yield no tracker. -/
+example : ∃ l pk : Bytes, pk.length = 32 ∧ idFromPublicKey pk ≠ l :=
+  ⟨[], List.replicate 32 0, by decide, by decide⟩
+
+example : addSessionTrackerRef [1] [] = none ∧ addSessionTrackerRef [1] [48] = none := by decide
 
 end Bifrost.Props.C26
